@@ -40,6 +40,7 @@ class SymEnv:
         return sc.pi()
 
     def const(self, x):
+        """an exact rational constant ('3/5' is three fifths, not the nearest double)"""
         return SReal.lift(Fr(x) if not isinstance(x, float) else x)
 
     def real(self, name, lo=None, hi=None, dist='normal'):
